@@ -115,8 +115,10 @@ func c02Apply(x *c02Ctx, ds datastore.Datastore, m *ratchetModel, op string, his
 	if want && err != nil {
 		x.fail("openable-rejected", fmt.Sprintf("message %d must open (registered at %d, window %d, %d opened, already opened=%v) but failed: %v", k, m.c, m.W, len(m.opened), m.opened[k], err), hist)
 	}
-	if !want && err == nil {
-		x.fail("unopenable-accepted", fmt.Sprintf("message %d must not open (registered=%v at %d, window %d, %d opened) but did", k, m.registered, m.c, m.W, len(m.opened)), hist)
+	// the statement gives a sufficient condition above the registered counter ("openable as soon as");
+	// only messages sealed at or before it, and anything before registration, must never open
+	if !want && err == nil && (!m.registered || k <= m.c) {
+		x.fail("unopenable-accepted", fmt.Sprintf("message %d must never open (registered=%v at %d) but did", k, m.registered, m.c), hist)
 	}
 	if err == nil {
 		if !bytes.Equal(o.Payload, x.snd.payloads[k-1]) || o.Counter != k {
@@ -253,8 +255,8 @@ func TestVerif_C02_Random(t *testing.T) {
 			if want && err != nil {
 				fail("openable-rejected", "sender %d message %d must open (registered at %d, window %d, %d opened) but failed: %v", si, k, m.c, W, len(m.opened), err)
 			}
-			if !want && err == nil {
-				fail("unopenable-accepted", "sender %d message %d must not open (registered=%v at %d, window %d, %d opened, bound %d) but did", si, k, m.registered, m.c, W, len(m.opened), m.bound())
+			if !want && err == nil && (!m.registered || k <= m.c) {
+				fail("unopenable-accepted", "sender %d message %d must never open (registered=%v at %d) but did", si, k, m.registered, m.c)
 			}
 			if err == nil {
 				if !bytes.Equal(o.Payload, s.snd.payloads[k-1]) || o.Counter != k {
